@@ -387,6 +387,21 @@ theorem renders_ok {t : Tree} {s : Str} (h : Renders true t s) : ElemOk t s := b
   · exact list_nil_ok
   · intro c cs s w s' hr hw hl ih1 ih2; exact list_cons_ok c cs s w s' hr hw hl ih1 ih2
 
+/-- the same for a sequence of sibling renderings -/
+theorem rendersList_ok {cs : List Tree} {body : Str} (h : RendersList true cs body) : ListOk cs body := by
+  refine RendersList.rec (strict := true) (motive_1 := fun t s _ => ElemOk t s) (motive_2 := fun cs body _ => ListOk cs body)
+    ?_ ?_ ?_ ?_ ?_ ?_ ?_ h
+  · intro t d w1 ht hd h1; exact leafOpen_ok t d w1 ht hd h1
+  · intro t d w1 w2 ht hd h1 h2; exact leafClosed_ok t d w1 w2 ht hd h1 h2
+  · intro t d ht hd hcd; exact cdataOpen_ok t d ht hd hcd
+  · intro t d w ht hd hcd _ hstrict
+    have : w = [] := hstrict rfl
+    subst this
+    exact cdataClosed_ok t d ht hd hcd
+  · intro t w0 cs body ht h0 hl hself ih; exact agg_ok t w0 cs body ht h0 hl (hself rfl) ih
+  · exact list_nil_ok
+  · intro c cs s w s' hr hw hl ih1 ih2; exact list_cons_ok c cs s w s' hr hw hl ih1 ih2
+
 /-! ### the property theorems -/
 
 /-- the full-strength statement: every rendering of the grammar of DESIGN 6.2 parses to the rendered tree -/
@@ -533,5 +548,52 @@ example : ∃ t, Renders true t exampleBody ∧ cdSafe exampleBody = true := by
     (by decide) ?_
   exact RendersList.cons _ _ _ _ _ (Renders.agg ['E'] [] [] [] (by decide) (by decide) RendersList.nil (by intro _ c hc; cases hc))
     (by decide) RendersList.nil
+
+/-! ### the executable renderer stays inside the grammar -/
+
+theorem ok_after (strict : Bool) (r : RTree) (h : r.ok strict = true) : ws r.after = true := by
+  cases r with
+  | leaf t d w1 w2 close a => simp only [RTree.ok, Bool.and_eq_true] at h; exact h.2
+  | cdata t d w close a => simp only [RTree.ok, Bool.and_eq_true] at h; exact h.1.2
+  | agg t w0 kids a => simp only [RTree.ok, Bool.and_eq_true] at h; exact h.1.1.2
+
+mutual
+  /-- the executable renderer only produces renderings of the grammar -/
+  theorem render_renders (strict : Bool) : (r : RTree) → r.ok strict = true → Renders strict r.tree r.str
+    | .leaf t d w1 w2 close a, h => by
+      simp only [RTree.ok, Bool.and_eq_true] at h
+      obtain ⟨⟨⟨⟨ht, hd⟩, h1⟩, h2⟩, _⟩ := h
+      cases close with
+      | true => exact Renders.leafClosed t d w1 w2 ht hd h1 h2
+      | false => exact Renders.leafOpen t d w1 ht hd h1
+    | .cdata t d w close a, h => by
+      simp only [RTree.ok, Bool.and_eq_true] at h
+      obtain ⟨⟨⟨⟨⟨ht, hd⟩, hcd⟩, hw⟩, _⟩, hs⟩ := h
+      cases close with
+      | true =>
+        refine Renders.cdataClosed t d w ht hd hcd hw ?_
+        intro hst; subst hst
+        simpa using hs
+      | false => exact Renders.cdataOpen t d ht hd hcd
+    | .agg t w0 kids a, h => by
+      simp only [RTree.ok, Bool.and_eq_true] at h
+      obtain ⟨⟨⟨⟨ht, h0⟩, _⟩, hk⟩, hs⟩ := h
+      refine Renders.agg t w0 _ _ ht h0 (renders_list strict kids hk) ?_
+      intro hst c hc
+      subst hst
+      simp only [hc, Bool.not_true, Bool.false_or] at hs
+      simpa using hs
+  theorem renders_list (strict : Bool) : (ks : List RTree) → RTree.oks strict ks = true →
+      RendersList strict (RTree.trees ks) (RTree.strs ks)
+    | [], _ => RendersList.nil
+    | k :: ks, h => by
+      simp only [RTree.oks, Bool.and_eq_true] at h
+      exact RendersList.cons _ _ _ _ _ (render_renders strict k h.1) (ok_after strict k h.1) (renders_list strict ks h.2)
+end
+
+/-- every strict, `cdSafe` output of the renderer parses back to the tree it was rendered from -/
+theorem C02_render_roundtrip (r : RTree) (h : r.ok true = true) (hsafe : cdSafe r.str = true) :
+    parse r.str = .ok (some r.tree) :=
+  C02_complete_partial _ _ (render_renders true r h) hsafe
 
 end Ofx.C02
